@@ -22,7 +22,8 @@ EXPLANATION = (
     "or its template is algebraically the law the format class uses (symbols unified through the registry names), including grain-delegated types; "
     "R6 export wiring: Network.export writes reactions.naunet in format 'naunet' on every path that continues to the configuration and sources, NetworkConfiguration records exactly that file/format and exports "
     "binding energies / yields of every surface species, and 'naunet' maps to the class whose __format__ wrote the file; R10 BaseConfiguration.content writes each "
-    "of those tables (binding_energy, photon_yield, rate_modifier, ode_modifier, files, formats) whole -- the attribute, a copy, or an unfiltered key-by-key re-spelling.")
+    "of those tables (binding_energy, photon_yield, rate_modifier, ode_modifier, files, formats) whole -- the attribute, a copy, or an unfiltered key-by-key re-spelling; "
+    "R11 a format class whose law lives in state the exchange format cannot store (KROME's explicit rate text) exports only type codes the native class refuses.")
 ASSUMPTIONS = [
     "equality 'to printed precision' of particular numbers is a property of Python's float formatting, not decided",
     "blank-line handling of the reader is C07.R1",
@@ -48,6 +49,7 @@ def check(ctx):
     _r4(ctx, pkg)
     _r5(ctx, rm, pkg)
     _r6(ctx, pkg)
+    _explicit_law_refused(ctx, rm, pkg)
     # the exported configuration carries the network's modifier tables whole (shared with C13.R7): a modifier dropped on the way into
     # naunet_config.toml makes the re-rendered project compute the unmodified law
     _content_tables_whole(ctx, pkg, rm)
@@ -91,12 +93,26 @@ def _reader(ctx, pkg):
     ctx.saw(RFILE, "Reaction._parse_string")
     # the reader with the procedures it may have been split into put back (the species builder stays the primitive it is)
     fn = pkg.expanded("Reaction", "_parse_string", keep=("_create_species",))
-    fl = Flow(fn, RFILE)
+    # (record types of the module -- `Rec(a, b).f`, `Rec.from_line(s)` -- are read through to the values they hold)
+    rm = ratemodel(pkg.tree)
+    fl = Flow(fn, RFILE, consts=rm.module_consts(RFILE), func_resolver=rm.func_resolver(RFILE, {"_fill_list", "_create_species"}))
     stores = {}
     for f in fl.facts:
         if f.kind == "attrstore" and f.extra.get("obj") == SELF:
             stores[f.target] = f
-    return {"fn": fn, "flow": fl, "stores": stores, "opaque": _opaque_self_calls(fn, ("_create_species",))}
+    return {"fn": fn, "flow": fl, "stores": stores, "opaque": _opaque_self_calls(fn, ("_create_species",)), "dynamic": _dynamic_stores(fn)}
+
+
+def _dynamic_stores(fn):
+    """places where a function stores attributes by a name it computes (setattr(x, name, v), x.__dict__ / vars(x) updated): what they
+    assign is not visible, so "never assigned" is not a conclusion"""
+    out = []
+    for c in ast.walk(fn):
+        if isinstance(c, ast.Call) and isinstance(c.func, ast.Name) and c.func.id in ("setattr", "vars"):
+            out.append(ast.unparse(c)[:60])
+        elif isinstance(c, ast.Attribute) and c.attr == "__dict__":
+            out.append(ast.unparse(c)[:60])
+    return out
 
 
 def _opaque_self_calls(fn, known=()):
@@ -235,8 +251,9 @@ def _r1_r2(ctx, w, r):
     for attr in ("idxfromfile", "alpha", "beta", "gamma", "temp_min", "temp_max", "reaction_type", "source"):
         f = st.get(attr)
         if f is None:
-            if r.get("opaque"):
-                ctx.unrec("R1", f"reader:{attr}", R, f"no assignment of self.{attr} is visible in the reader, but it calls helpers that are not understood: {r['opaque'][:3]}")
+            if r.get("opaque") or r.get("dynamic"):
+                ctx.unrec("R1", f"reader:{attr}", R, f"no assignment of self.{attr} is visible in the reader, but it " + (f"calls helpers that are not understood: {r['opaque'][:3]}" if r.get("opaque") else
+                          f"stores attributes by computed name: {r['dynamic'][:2]}"))
             else:
                 ctx.bad("R1", f"reader:{attr}", R, f"the reader never assigns self.{attr}")
             continue
@@ -295,17 +312,35 @@ def _r1_r2(ctx, w, r):
             continue
         ctx.check(ok, "R1", f"reader:{attr}:slice", (RFILE, f.line if f else r["fn"].lineno),
                   f"{attr} are read from the {hi - lo} fields the writer fills for them", expected=f"fields[{lo}:{hi}] after the index", found=found)
-        ctx.check(stripped, "R2", f"reader:{attr}:strip", (RFILE, f.line if f else r["fn"].lineno), f"padded species names are stripped before they are parsed")
+        if f is not None and not stripped and m and any(isinstance(x, tuple) and x and ((x[0] == "call" and x[1] != ("global", "str")) or
+                                                         (x[0] == "meth" and x[2] not in ("_create_species", "strip", "lstrip", "rstrip"))) for x in walk(m[1])):
+            ctx.unrec("R2", f"reader:{attr}:strip", (RFILE, f.line), f"the species names pass through a call that is not understood before they are parsed: {show(m[1])[:80]}")
+        else:
+            ctx.check(stripped, "R2", f"reader:{attr}:strip", (RFILE, f.line if f else r["fn"].lineno), f"padded species names are stripped before they are parsed")
     # R2 inverses
+    KNOWN_CONV = {"int", "float", "str", "strip", "rstrip", "lstrip", "ReactionType", "BasicType"}
+
+    def strange(wraps):
+        """converters on the way from the field to the attribute that this rule does not know (a helper of the package ..)"""
+        return [w_ for w_ in wraps if w_ not in KNOWN_CONV]
     for attr, conv in NUMERIC.items():
         if attr in pos:
             wraps = pos[attr][1]
+            if conv not in wraps and strange(wraps):
+                ctx.unrec("R2", f"reader:{attr}:{conv}()", (RFILE, pos[attr][2].line), f"the text of {attr} passes through {strange(wraps)}, which is not understood")
+                continue
             ctx.check(conv in wraps, "R2", f"reader:{attr}:{conv}()", (RFILE, pos[attr][2].line), f"the text of {attr} is converted back with {conv}()", found=str(wraps))
     if "reaction_type" in pos:
         wraps = pos["reaction_type"][1]
-        ctx.check(wraps[:2] == ["ReactionType", "int"], "R2", "reader:reaction_type:ReactionType(int())", (RFILE, pos["reaction_type"][2].line),
-                  "the type code is converted back with ReactionType(int(..))", found=str(wraps))
-    if "source" in pos:
+        core = [w_ for w_ in wraps if w_ not in ("strip", "rstrip", "lstrip")]
+        if core[:2] != ["ReactionType", "int"] and strange(wraps):
+            ctx.unrec("R2", "reader:reaction_type:ReactionType(int())", (RFILE, pos["reaction_type"][2].line), f"the type code passes through {strange(wraps)}, which is not understood")
+        else:
+            ctx.check(core[:2] == ["ReactionType", "int"], "R2", "reader:reaction_type:ReactionType(int())", (RFILE, pos["reaction_type"][2].line),
+                      "the type code is converted back with ReactionType(int(..))", found=str(wraps))
+    if "source" in pos and "strip" not in pos["source"][1] and strange(pos["source"][1]):
+        ctx.unrec("R2", "reader:source:strip", (RFILE, pos["source"][2].line), f"the source tag passes through {strange(pos['source'][1])}, which is not understood")
+    elif "source" in pos:
         wraps = pos["source"][1]
         # the whole line may have been stripped before splitting
         pre = line is not None and line[0] == "meth" and line[2] in ("strip", "rstrip")
@@ -323,15 +358,25 @@ def _r1_r2(ctx, w, r):
                   f"format spec {bad} truncates species names longer than its precision: the name read back is a different species", found=str(specs))
         # the written name must be the species' own name
         nm = [x for x in walk(body) if isinstance(x, tuple) and len(x) == 4 and x[0] == "fmt"]
-        ctx.check(bool(nm) and nm[0][1] in (bv, ("attr", bv, "name")), "R2", f"writer:{src.lower()}:name", W, "the written token is the species name itself", found=show(body)[:80])
+        if nm and nm[0][1] in (bv, ("attr", bv, "name")):
+            ctx.ok("R2", f"writer:{src.lower()}:name", W, "the written token is the species name itself")
+        elif nm and nm[0][1][0] == "attr" and nm[0][1][1] == bv:
+            ctx.bad("R2", f"writer:{src.lower()}:name", W, f"the written token is the species' `{nm[0][1][2]}`, not its name: the reader builds the species from this text", found=show(body)[:80])
+        else:
+            ctx.unrec("R2", f"writer:{src.lower()}:name", W, f"cannot see which text of the species is written: {show(body)[:80]}")
     for f in fields:
         if f[0] == "scalar" and f[1][0] == "fmt":
             x, spec = f[1][1], f[1][2]
             attr = x[2] if x[0] == "attr" else None
-            if attr == "source":
-                ctx.check(isinstance(spec, str) and "." not in spec, "R2", "writer:source:format", W, "the source tag is padded, never truncated", found=str(spec))
+            if attr == "source" and spec is not None and not isinstance(spec, str):
+                ctx.unrec("R2", "writer:source:format", W, "the format of the source tag is not a literal spec")
+            elif attr == "source":
+                ctx.check(spec is None or "." not in spec, "R2", "writer:source:format", W, "the source tag is padded, never truncated", found=str(spec))
             if attr in ("alpha", "beta", "gamma"):
-                ctx.check(isinstance(spec, str) and spec.endswith("e"), "R2", f"writer:{attr}:format", W, "coefficients are written in exponent notation (no loss of small magnitudes)", found=str(spec))
+                if not isinstance(spec, str):
+                    ctx.unrec("R2", f"writer:{attr}:format", W, f"the format of {attr} is not a literal spec: {show(spec)[:60] if isinstance(spec, tuple) else spec!r}")
+                else:
+                    ctx.check(spec.endswith("e"), "R2", f"writer:{attr}:format", W, "coefficients are written in exponent notation (no loss of small magnitudes)", found=str(spec))
 
 
 def _r3(ctx, rm, pkg):
@@ -349,13 +394,23 @@ def _r3(ctx, rm, pkg):
 
 
 def _r4(ctx, pkg):
-    fn = pkg.method("Network", "write")
+    pkg.method("Network", "write")
     ctx.saw(NET, "Network.write")
+    # (the writer with the helpers it may have been split into put back: a generator of the pieces merged into the loop that writes them)
+    fn = pkg.expanded("Network", "write")
     fl = Flow(fn, NET)
     writes = [f for f in fl.facts if f.kind == "call" and f.target == "write"]
     rec = [f for f in writes if f.loops and any(isinstance(x, tuple) and len(x) == 4 and x[0] == "fmt" and x[1][0] == "elem" for x in walk(simp(f.value)))]
     ok = len(rec) == 1 and len(rec[0].loops) == 1 and simp(rec[0].loops[0].iter) == ("attr", SELF, "reaction_list") and not rec[0].guards
-    if not rec or (len(rec) > 1 and all(f.guards for f in rec)):
+    RL = ("attr", SELF, "reaction_list")
+    # what is walked is understood when it is the reaction list itself or a visible selection / re-ordering of it
+    it0 = simp(rec[0].loops[0].iter) if len(rec) == 1 and len(rec[0].loops) == 1 else None
+    seen_iter = it0 is not None and (it0 == RL or ((it0[0] in ("sub", "comp") or (it0[0] == "call" and it0[1][0] == "global" and it0[1][1] in ("sorted", "reversed", "filter", "set")))
+                                                   and any(x == RL for x in walk(it0))))
+    if rec and len(rec) == 1 and not ok and not (seen_iter and len(rec[0].loops) == 1):
+        ctx.unrec("R4", "Network.write:one-record-per-reaction", (NET, fn.lineno), "cannot see that the loop writing the records walks self.reaction_list: "
+                  + "; ".join(show(simp(lp_.iter))[:60] for lp_ in rec[0].loops))
+    elif not rec or (len(rec) > 1 and all(f.guards for f in rec)):
         # no write of a formatted loop element found / one write per branch: the way records are written is not understood
         ctx.unrec("R4", "Network.write:one-record-per-reaction", (NET, fn.lineno), f"cannot find the single write of the formatted reaction inside the loop over the reactions ({len(rec)} candidates)")
     else:
@@ -462,19 +517,24 @@ def _r5(ctx, rm, pkg):
             # compare every format variant with the native variant under the same coefficient assumptions
             for v, extra in farms:
                 txt, names = variant_text(v)
-                if any(x is None for x in names.values()):
-                    ctx.unrec("R5", key, (v.file, v.line), "unrecognised hole in the format-class template")
+                if any(x is None for x in names.values()) or v.seqs:
+                    ctx.unrec("R5", key, (v.file, v.line), "unrecognised hole / joined sequence in the format-class template")
                     continue
                 zero = {COEFF[c]: not val for c, val in v.assume.items() if c in COEFF}
                 env0 = {k: 0.0 for k, z in zero.items() if z}
                 cands = []
+                nopen = False           # a hole of the native template that is not understood (neither a coefficient nor the first reactant)
                 for nv, _ in narms:
-                    ntxt, _ = variant_text(nv)
+                    ntxt, nnames = variant_text(nv)
+                    nopen = nopen or any(x is None for x in nnames.values()) or bool(nv.seqs)
                     nz = {COEFF[c]: not val for c, val in nv.assume.items() if c in COEFF}
                     if all(zero.get(k, False) == z for k, z in nz.items()):
                         cands.append(ntxt)
                 if not cands:
                     cands = [variant_text(narms[0][0])[0]]
+                if nopen:
+                    ctx.unrec("R5", key, (v.file, v.line), f"unrecognised hole in the native template for type {tval}: {cands[0][:80]}")
+                    continue
                 try:
                     a = calg.canon_str(txt, {**env_f, **env0})
                     ok = any(a.equiv(calg.canon_str(c, env0)) for c in cands)
@@ -489,12 +549,32 @@ def _r5(ctx, rm, pkg):
     ctx.floor("R5", "(format, code) pairs", n, 40)
 
 
+def _grain_builder(rm, tval):
+    """(name of the rate_* builder Grain.rateexpr hands reaction type `tval` to, None) -- decided by EVALUATING the grain's dispatch for
+    that value, however it is spelled; (None, "refused") when every arm reachable for the value raises; (None, <what is not understood>)
+    otherwise."""
+    arms = arms_for(rm, "Grain", rm.variants("Grain"), "reaction_type", tval)
+    # (the grain's own `if rate is NotImplemented: raise` is about what the builder returns, not about which builder is taken)
+    about_result = lambda c: any(x == ("global", "NotImplemented") for x in walk(c))
+    live = [(a, extra) for a, extra in arms if not any(about_result(c) and p_ for c, p_ in extra)]
+    und = sorted({show(c)[:70] for _, extra in live for c, _p in extra if not _about_law(c) and not about_result(c)})
+    kinds = {a.kind for a, _ in live}
+    names = {a.raw[2] for a, _ in live if a.kind == "delegate" and a.raw is not None and a.raw[0] == "meth" and a.raw[1] == SELF}
+    if kinds == {"delegate"} and len(names) == 1:
+        return next(iter(names)), None
+    if live and kinds == {"raise"} and not und:
+        return None, "refused"
+    return None, (f"condition(s) {und[:3]} are not understood" if und else f"the dispatch yields {sorted(kinds)} / builders {sorted(names)}")
+
+
 def _grain_sibling(ctx, rm, regs, F, tval, key, where):
     """Grain-delegated type: the symbols the grain templates read from the reaction must resolve identically."""
-    gm = grain_methods(rm)
-    mname = gm.get(tval)
-    if mname is None:
+    mname, why = _grain_builder(rm, tval)
+    if mname is None and why == "refused":
         ctx.bad("R5", key, where, f"type {tval} is delegated to the grain but Grain.rateexpr does not dispatch on it")
+        return
+    if mname is None:
+        ctx.unrec("R5", key, where, f"cannot decide which rate builder Grain.rateexpr hands type {tval} to: {why}")
         return
     fsym = {s.name: s.text for s in regs[F]}
     nsym = {s.name: s.text for s in regs["Reaction"]}
@@ -523,6 +603,155 @@ def _grain_sibling(ctx, rm, regs, F, tval, key, where):
                 f"law at a different physical quantity without any error", expected=d[1], found=d[2])
     else:
         ctx.ok("R5", key, where, "grain-delegated: the symbols read from the reaction are the same" + (f" (or refused: {sorted(refused)} not registered natively)" if refused else ""))
+
+
+def _possible_names(rm, pkg, F, owner, meth, name_ir, depth=0):
+    """The set of literal strings an attribute-name expression can evaluate to, or None when that cannot be told: a literal; an entry of a
+    class-level table of literals (`self._columns[key]`, `.get(key)`); a conditional of those; a parameter of the method that EVERY call site
+    in the class's module -- direct calls and functools.partial(..) bindings -- gives a literal."""
+    v = simp(subst(simp(name_ir), rm.class_consts(F)))
+    if v[0] == "const" and isinstance(v[1], str):
+        return {v[1]}
+    if v[0] in ("phi", "ifexp") and len(v) == 4:
+        a, b = _possible_names(rm, pkg, F, owner, meth, v[2], depth), _possible_names(rm, pkg, F, owner, meth, v[3], depth)
+        return None if a is None or b is None else a | b
+    table = v[1] if v[0] == "sub" else v[1] if v[0] == "meth" and v[2] == "get" and len(v[3]) == 1 else None
+    if table is not None and table[0] == "dict" and table[1] and all(val[0] == "const" and isinstance(val[1], str) for _k, val in table[1]):
+        return {val[1] for _k, val in table[1]}
+    if table is not None and table[0] == "attr" and table[1] in (SELF, ("param", "cls")):
+        # a class-level table of names (read directly: RateModel.class_displays gives up on every table of a class that uses setattr).  It
+        # is the display it is bound to when no method assigns it and the names it holds do not include its own
+        tname = table[2]
+        _c, node = pkg.resolve_attr(F, tname)
+        assigned = any(isinstance(a_, ast.Attribute) and a_.attr == tname and isinstance(a_.ctx, (ast.Store, ast.Del))
+                       for c_ in pkg.mro(F) if c_ in pkg.classes for m_ in pkg.classes[c_].methods.values() for a_ in ast.walk(m_))
+        if isinstance(node, ast.Dict) and node.values and not assigned and all(isinstance(x, ast.Constant) and isinstance(x.value, str) for x in node.values):
+            names = {x.value for x in node.values}
+            return names if tname not in names else None
+    if v[0] == "param" and depth == 0:
+        params = [a.arg for a in meth.args.args]
+        if v[1] not in params:
+            return None
+        pos = params.index(v[1]) - 1          # (position among the arguments of a call through self / cls)
+        mod = pkg.modules.get(pkg.classes[owner].file)
+        found = set()
+        for c in ast.walk(mod) if mod is not None else ():
+            if not isinstance(c, ast.Call):
+                continue
+            fname = ast.unparse(c.func)
+            args, shift = None, 0
+            if fname in (f"self.{meth.name}", f"cls.{meth.name}"):
+                args = c.args
+            elif fname in ("partial", "functools.partial") and c.args and ast.unparse(c.args[0]) in (meth.name, f"self.{meth.name}", f"cls.{meth.name}", f"{owner}.{meth.name}"):
+                args, shift = c.args[1:], (1 if ast.unparse(c.args[0]) in (meth.name, f"{owner}.{meth.name}") else 0)     # (the plain function still takes self)
+            if args is None:
+                continue
+            kw = next((k.value for k in c.keywords if k.arg == v[1]), None)
+            given = kw if kw is not None else (args[pos + shift] if 0 <= pos + shift < len(args) else None)
+            if given is None and fname.endswith("partial"):
+                continue                      # (this partial leaves the parameter open: whoever calls it is not visible)
+            if not (isinstance(given, ast.Constant) and isinstance(given.value, str)):
+                return None
+            found.add(given.value)
+        return found or None
+    return None
+
+
+def _explicit_law_refused(ctx, rm, pkg):
+    """R11: a format class whose rate law is NOT a function of what the exchange format stores (type code, alpha, beta, gamma, window) -- its
+    rateexpr reads state of its own that Reaction.__format__('naunet') does not write, like KROME's explicit rate text -- must export a type
+    code the native class REFUSES: every value it gives `reaction_type` (its own assignments, a reaction_type= handed to the base constructor,
+    else the base default) makes Reaction.rateexpr raise.  Otherwise the exported project re-renders without an error and computes the
+    native law of that code from coefficients the class never set (all rates 0.0)."""
+    natv = rm.variants("Reaction")
+    n = 0
+    for F in sorted(pkg.subclasses("Reaction")):
+        ci = pkg.classes.get(F)
+        if F in REF or "." in F or ci is None or not ci.file.startswith("naunet/reactions/"):
+            continue
+        dc, fn = pkg.resolve(F, "rateexpr")
+        if fn is None or dc == "Reaction":
+            continue
+        own_methods = [m_ for c_ in pkg.mro(F) if c_ in pkg.classes and c_ != "Reaction" and "Reaction" in pkg.mro(c_) for m_ in pkg.classes[c_].methods.values()]
+        own_state = {t.attr for m_ in own_methods for a_ in ast.walk(m_) if isinstance(a_, (ast.Assign, ast.AnnAssign, ast.AugAssign))
+                     for t in (a_.targets if isinstance(a_, ast.Assign) else [a_.target]) if isinstance(t, ast.Attribute) and isinstance(t.value, ast.Name) and t.value.id == "self"}
+        reads = {a_.attr for a_ in ast.walk(fn) if isinstance(a_, ast.Attribute) and isinstance(a_.ctx, ast.Load) and isinstance(a_.value, ast.Name) and a_.value.id == "self"}
+        carried = sorted((reads & own_state) - set(WRITER_FIELDS) - {"reactants", "products"})
+        if not carried:
+            continue
+        n += 1
+        where = (ci.file, fn.lineno)
+        key = f"{F}: law carried by {'/'.join(carried)}, exported type code"
+        # the values the class gives reaction_type
+        vals, opaque = [], []
+        for c_ in pkg.mro(F):
+            if c_ not in pkg.classes or c_ == "Reaction" or "Reaction" not in pkg.mro(c_):
+                continue
+            file_ = pkg.classes[c_].file
+            for mname, m_ in pkg.classes[c_].methods.items():
+                if not any(isinstance(a_, ast.Attribute) and a_.attr == "reaction_type" and isinstance(a_.ctx, ast.Store) for a_ in ast.walk(m_)) \
+                        and not any(isinstance(a_, ast.keyword) and a_.arg == "reaction_type" for a_ in ast.walk(m_)) \
+                        and not any(isinstance(a_, ast.Call) and isinstance(a_.func, ast.Name) and a_.func.id == "setattr" for a_ in ast.walk(m_)):
+                    continue
+                fl = Flow(m_, file_, consts=rm.module_consts(file_), resolver=lambda name, c_=c_: pkg.resolve(c_, name)[1] if name.startswith("_") and not name.startswith("__") else None)
+                for f in fl.facts:
+                    if f.kind == "attrstore" and f.target == "reaction_type" and f.extra.get("obj") == SELF:
+                        vals.append((simp(f.value), (file_, f.line)))
+                    elif f.kind == "call" and f.value is not None and f.value[0] == "meth" and f.value[2] == "__init__":
+                        vals += [(simp(v_), (file_, f.line)) for k_, v_ in f.value[4] if k_ == "reaction_type"]
+                    elif f.kind == "call" and f.value is not None and f.value[0] == "call" and f.value[1] == ("global", "setattr"):
+                        # an attribute stored by computed name: which names can it be?  (a class-level table of names, a parameter every
+                        # caller binds to a literal ..)  Not understood only when `reaction_type` cannot be excluded
+                        sargs = f.value[2]
+                        names_ = _possible_names(rm, pkg, F, c_, m_, sargs[1]) if len(sargs) == 3 and sargs[0] == SELF else None
+                        if names_ is None:
+                            opaque.append(f"{c_}.{mname}: {show(f.value)[:60]}")
+                        elif "reaction_type" in names_:
+                            vals.append((simp(sargs[2]), (file_, f.line)))
+        if not vals:
+            # nothing of its own: the base constructor's default
+            init = pkg.method("Reaction", "__init__")
+            a = init.args
+            dflt = dict(zip([x.arg for x in a.args][len(a.args) - len(a.defaults):], a.defaults)).get("reaction_type")
+            if dflt is not None:
+                vals.append((simp(Flow(ast.parse("def _():\n    pass").body[0], RFILE).ev(dflt)), (RFILE, init.lineno)))
+        if opaque or not vals:
+            ctx.unrec("R11", key, where, f"cannot see which type code {F} exports: " + (opaque[0] if opaque else "no assignment of reaction_type and no default in Reaction.__init__"))
+            continue
+        bad, und = [], []
+        for v_, w_ in vals:
+            leaves = []
+
+            def split(x):
+                if x[0] in ("phi", "ifexp") and len(x) == 4:
+                    split(x[2]), split(x[3])
+                else:
+                    leaves.append(x)
+            split(v_)
+            for leaf in leaves:
+                tval = rm.enum_of_ir(F, leaf)
+                if tval is None:
+                    und.append(show(leaf)[:60])
+                    continue
+                narms = arms_for(rm, "Reaction", natv, "reaction_type", tval)
+                nk = {a_.kind for a_, _ in narms}
+                open_ = [show(c)[:60] for _, extra in narms for c, _p in extra if not _about_law(c)]
+                if nk == {"raise"} or not narms:
+                    continue
+                if open_ and "raise" in nk:
+                    und.append(f"native dispatch for type {tval}: {open_[0]}")
+                else:
+                    bad.append((show(leaf), tval, w_, sorted(nk)))
+        if bad:
+            leaf, tval, w_, nk = bad[0]
+            ctx.bad("R11", key, w_, f"{F} computes its rate from {'/'.join(carried)}, which the native exchange format cannot store, but gives the reaction the type {leaf} ({tval}), which the "
+                    f"native class accepts ({nk}): the exported project re-renders WITHOUT an error and evaluates the native law of type {tval} with the coefficients {F} never set",
+                    expected="a type code Reaction.rateexpr refuses (ReactionType.UNKNOWN)", found=leaf)
+        elif und:
+            ctx.unrec("R11", key, where, f"cannot resolve the type code {F} exports: {und[0]}")
+        else:
+            ctx.ok("R11", key, where, f"every type code {F} exports ({', '.join(sorted({show(v_)[:40] for v_, _ in vals}))}) is refused by the native class")
+    ctx.floor("R11", "format classes whose law the exchange format cannot carry", n, 1)
 
 
 NET_EDITS = {"remove_reaction", "add_reaction", "add_reaction_from_file", "_add_reaction", "reindex"}
@@ -726,7 +955,10 @@ def _r6(ctx, pkg):
         at = next(i for i, c in enumerate(calls) if c is w[0])
         later = [c for c in calls[at + 1:] if ast.unparse(c.func) == "NetworkConfiguration" or (isinstance(c.func, ast.Attribute) and c.func.attr in ("render", "write") and
                                                                                              ast.unparse(c.func) != "self.write")]
-        if dom is not None:
+        if dom is True and len(later) < 2:
+            ctx.unrec("R6", "Network.export:reaction-file on every continuing path", (NET, w[0].lineno), "cannot see the configuration / source rendering that follows the write of reactions.naunet "
+                      f"({len(later)} of the NetworkConfiguration(..) / .render(..) / .write(..) calls found after it)")
+        elif dom is not None:
             ctx.check(dom is True and len(later) >= 2, "R6", "Network.export:reaction-file on every continuing path", (NET, w[0].lineno),
                       "every path that reaches the configuration/source rendering has (re)written reactions.naunet" if dom else
                       "reactions.naunet is written only on some of the paths that go on to regenerate the configuration and sources: re-exporting into an existing project "
@@ -785,6 +1017,11 @@ def _r6(ctx, pkg):
             if shape:
                 bv, body, base, ifs = m
                 ok = tuple(ifs) == (("attr", bv, "is_surface"),) and body == ("tuple", (("attr", bv, "name"), ("attr", bv, attr)))
+                # positive evidence = a filter / entry made of plain attribute tests of the species; a call in there is not understood
+                plain = not any(isinstance(x, tuple) and x and x[0] in ("call", "meth", "sub", "unknown") for c_ in tuple(ifs) + (body,) for x in walk(c_))
+                if not ok and not plain:
+                    ctx.unrec("R6", f"NetworkConfiguration:{nm}", (CONF, vals[-1][3]), f"the exported {nm} table is built with calls that are not understood: {show(v)[:120]}")
+                    continue
                 found = "{" + f"{show(body[1][0])}: {show(body[1][1])}" + "} " + f"for {show(bv)} in {show(base)}" + "".join(f" if {show(c)}" for c in ifs) if body[0] == "tuple" and len(body[1]) == 2 else found
             if not shape:
                 # not a table built per species (a helper's result, a merged dict ..): nothing visible is wrong
@@ -794,8 +1031,8 @@ def _r6(ctx, pkg):
                   f"the exported table holds {attr} of every surface species of the network (values set through the API included)",
                   expected=f"{{s.name: s.{attr} for s in network.species if s.is_surface}}", found=found)
     for tgt, what in (("_bindingenergy", "binding energies"), ("_photonyield", "yields")):
-        if tgt not in stv and opaque_init:
-            ctx.unrec("R6", f"NetworkConfiguration:{tgt}", (CONF, init.lineno), f"no assignment of self.{tgt} is visible, but the constructor calls helpers that are not understood: {opaque_init[:3]}")
+        if tgt not in stv and (opaque_init or _dynamic_stores(init)):
+            ctx.unrec("R6", f"NetworkConfiguration:{tgt}", (CONF, init.lineno), f"no assignment of self.{tgt} is visible, but the constructor calls helpers / stores by computed name: {(opaque_init or _dynamic_stores(init))[:3]}")
         else:
             ctx.check(tgt in stv, "R6", f"NetworkConfiguration:{tgt}", (CONF, init.lineno), f"the exported {what} are that table")
 
@@ -1009,3 +1246,20 @@ def _rd_record_dict(key):
 BENIGN += [dict(_rd_zip_fields('("alpha", "beta", "gamma", "temp_min", "temp_max")'), name="reader-floats-zipped-with-record-slice"), dict(_rd_record_dict("beta"), name="reader-column-from-keyed-record")]
 MUTANTS += [dict(_rd_zip_fields('("alpha", "beta", "gamma", "temp_max", "temp_min")'), name="reader-zipped-slice-bounds-swapped", rules=["R1"]),
             dict(_rd_record_dict("gamma"), name="reader-keyed-record-wrong-column", rules=["R1"])]
+
+# ---- rules added for the round-6 seeds ----
+KR = "naunet/reactions/kromereaction.py"
+_KR_IMPORT = "from .reaction import Reaction\nfrom .converter import ExpressionConverter\n"
+_KR_SUPER = "        super().__init__(react_string=react_string)\n\n        self.unregister(\"dust_temperature\")\n"
+
+
+def _krome_type(member):
+    return [{"file": KR, "old": _KR_IMPORT, "new": "from ..reactiontype import ReactionType\n" + _KR_IMPORT},
+            {"file": KR, "old": _KR_SUPER, "new": "        super().__init__(react_string=react_string)\n        self.reaction_type = ReactionType." + member + "\n\n        self.unregister(\"dust_temperature\")\n"}]
+
+
+MUTANTS.append({"name": "krome-reactions-tagged-twobody", "edits": _krome_type("GAS_TWOBODY"), "rules": ["R11"]})
+MUTANTS.append({"name": "krome-type-handed-to-base-constructor", "edits": [{"file": KR, "old": _KR_IMPORT, "new": "from ..reactiontype import ReactionType\n" + _KR_IMPORT},
+                {"file": KR, "old": "        super().__init__(react_string=react_string)\n\n        self.unregister(\"dust_temperature\")\n",
+                 "new": "        super().__init__(react_string=react_string, reaction_type=ReactionType.GAS_COSMICRAY)\n\n        self.unregister(\"dust_temperature\")\n"}], "rules": ["R11"]})
+BENIGN.append({"name": "krome-type-explicitly-unknown", "edits": _krome_type("UNKNOWN")})
